@@ -56,7 +56,7 @@ const c14RegionPages = 4
 
 func c14Carve() (uintptr, error) {
 	if c14Arena.base == 0 {
-		size := uintptr(vkit.Scale(6000, 200000)+64) * c14RegionPages * 4096
+		size := uintptr(vkit.Scale(6000, 45000)+64) * c14RegionPages * 4096
 		a, err := vkit.MmapAt(0, int(size), syscall.PROT_NONE)
 		if err != nil {
 			return 0, err
@@ -256,7 +256,7 @@ func TestVerifC14Synthetic(t *testing.T) {
 			return c
 		},
 		Run: c14RunLayout}
-	s := p.Main(t, vkit.Scale(5000, 190000))
+	s := p.Main(t, vkit.Scale(5000, 40000))
 	if !vkit.Replaying() {
 		s.Done()
 	}
